@@ -146,7 +146,7 @@ impl Scenario for C02 {
                 let (budgets, exhaustive): (Vec<u64>, bool) = if let Some(o) = &case.only {
                     (o.clone(), false)
                 } else if c <= 4096 {
-                    ((1..=c + 1).collect(), true)
+                    ((1..=c.saturating_add(1)).collect(), true)
                 } else {
                     let mut v: Vec<u64> = Vec::new();
                     let mut cps = checkpoints.clone();
@@ -158,13 +158,13 @@ impl Scenario for C02 {
                         cps.extend(tail);
                     }
                     for x in cps {
-                        v.extend([x.saturating_sub(1), x, x + 1]);
+                        v.extend([x.saturating_sub(1), x, x.saturating_add(1)]);
                     }
                     let mut r = Rng::new(case.extra_seed);
                     for _ in 0..32 {
                         v.push(1 + r.below(c));
                     }
-                    v.extend([c - 1, c, c + 1, c + 1000, u64::MAX, 1, 2]);
+                    v.extend([c.saturating_sub(1), c, c.saturating_add(1), c.saturating_add(1000), u64::MAX, 1, 2]);
                     v.retain(|x| *x >= 1);
                     v.sort_unstable();
                     v.dedup();
